@@ -247,17 +247,20 @@ inline std::string cfg_line(sim::Rng& r, bool allow_invalid)
    return l;
 }
 
-inline std::vector<std::string> gen_plan(const Corpus& corpus, uint64_t seed, std::string* mode_out)
+inline std::vector<std::string> gen_plan(const Corpus& corpus, uint64_t seed, std::string* mode_out, bool light = false)
 {
    sim::Rng r(seed);
    static const char* const modes[] = {"environment", "bytes", "structure", "everything", "random_bytes", "config", "crashpoint", "random_text"};
-   const int mode = (int)r.below(8);
+   int mode = (int)r.below(8);
+   // light plans: intact shipped files under environment faults and configuration changes only, so that
+   // most of them get past parsing into the calculations (used for the real-process and valgrind samples)
+   if (light) { static const int lm[] = {0, 5, 0, 5, 6}; mode = lm[r.below(5)]; }
    if (mode_out) *mode_out = modes[mode];
    std::vector<std::string> p;
    const CorpusFile& f = corpus.files[r.below(corpus.files.size())];
    if (mode == 4) p.push_back("base random " + std::to_string(r.chance(0.5) ? r.below(256) : r.below(65537)) + " " + std::to_string(r.next() >> 1));
    else if (mode == 7) p.push_back("base randomtext " + std::to_string(r.chance(0.5) ? r.below(512) : r.below(20000)) + " " + std::to_string(r.next() >> 1));
-   else if (r.chance(0.03)) p.push_back("base empty");
+   else if (!light && r.chance(0.03)) p.push_back("base empty");
    else p.push_back("base corpus " + f.rel);
    if (mode == 4 || mode == 7) { static const char* const ty[] = {"slha", "gm2calc", "thdm"}; p.push_back(std::string("type ") + ty[r.below(3)]); }
    const size_t nops = 1 + r.below(12);
